@@ -248,6 +248,8 @@ def run_job(job):
         return rec_env(a)
     if kind == "disp":
         return rec_disp(a)
+    if kind == "envhist":
+        return rec_history(a)     # a list of env lines, one per get_environ of the history
     raise ValueError(kind)
 
 
@@ -405,3 +407,164 @@ def rec_bind(c: dict) -> dict:
 def run_job2(job):
     kind, a = job
     return rec_envrt(a) if kind == "envrt" else rec_bind(a)
+
+
+# ====================================================================== growth: multi-step builder histories (attribute assignment)
+def _plain_text(rng: random.Random, maxlen=4) -> str:
+    """Unicode text without URL syntax: what a caller assigns verbatim to builder attributes"""
+    pool = "abcXY09-._~éßÿĀ߿ࠀ€￿\U00010000\U0001f600\U0010ffff\u0080 ;:@!'()*,"
+    return "".join(rng.choice(pool) for _ in range(rng.choice([1, 1, 2, 3, maxlen])))
+
+
+def gen_history(rng: random.Random):
+    """steps: ['new', kwargs-case] first, then assignments ['path', p], ['base_url', scheme, hostidx, ascii?, port, root],
+    ['script_root', r], ['host', hostidx, ascii?, port], ['url_scheme', s], ['query_string', pairs, raw?], ['args', pairs],
+    ['args_add', k, v], and ['emit'] (get_environ + Request); one builder, two or three emits"""
+    nh = len(hosts())
+
+    def path():
+        segs = [_plain_text(rng) for _ in range(rng.choice([0, 1, 2, 3]))]
+        if rng.random() < 0.15:
+            segs.append(rng.choice(["%C3%A9", "%41", "100%", "a%2Fb", "%e2%82%ac"]))
+        return "/" + "/".join(segs) + rng.choice(["", "", "/"])
+
+    def root():
+        return rng.choice(["", "", "/app", "/röot", "/" + _plain_text(rng), "/a b/" + _plain_text(rng, 2)])
+
+    def pairs():
+        return [[_plain_text(rng, 3), rng.choice(["", _plain_text(rng), "a&b=c+d #%", "x y"])] for _ in range(rng.choice([0, 1, 2, 3]))]
+
+    steps = []
+    if rng.random() < 0.5:
+        steps.append(["new", None])
+    else:
+        c = gen_env(rng)
+        c["path"] = path()
+        steps.append(["new", c])
+    emits = 0
+    nsteps = rng.choice([3, 5, 8])
+    for k in range(nsteps):
+        if k == nsteps // 2 and rng.random() < 0.7:
+            steps.append(["emit"])
+            emits += 1
+        r = rng.random()
+        if r < 0.24:
+            steps.append(["path", path()])
+        elif r < 0.40:
+            steps.append(["base_url", rng.choice(["http", "https", "ws", "wss"]), rng.randrange(nh), rng.random() < 0.4, rng.choice(PORTS), root()])
+        elif r < 0.52:
+            steps.append(["script_root", root()])
+        elif r < 0.62:
+            steps.append(["host", rng.randrange(nh), rng.random() < 0.4, rng.choice(PORTS)])
+        elif r < 0.68:
+            steps.append(["url_scheme", rng.choice(["http", "https"])])
+        elif r < 0.78:
+            ps, seen = [], set()
+            for kv in pairs():       # a literal query string keeps its own order in the URL: keys are kept distinct here
+                if kv[0] not in seen:
+                    seen.add(kv[0])
+                    ps.append(kv)
+            steps.append(["query_string", ps, rng.random() < 0.5])
+        elif r < 0.86:
+            steps.append(["args", pairs()])
+        elif r < 0.92:
+            steps.append(["args_add", _plain_text(rng, 2), _plain_text(rng)])
+        elif emits < 2:
+            steps.append(["emit"])
+            emits += 1
+    steps.append(["emit"])
+    return {"steps": steps}
+
+
+def _raw_query(pairs) -> str:
+    """a query string as a caller would write it: literal non-ASCII, only the query syntax itself escaped"""
+    esc = {"%": "%25", "&": "%26", "=": "%3D", "+": "%2B", "#": "%23", " ": "+"}
+    return "&".join("".join(esc.get(c, c) for c in k) + "=" + "".join(esc.get(c, c) for c in v) for k, v in pairs)
+
+
+def rec_history(h: dict) -> list:
+    from urllib.parse import urlencode
+
+    from werkzeug.datastructures import MultiDict
+    from werkzeug.test import EnvironBuilder
+    from werkzeug.wrappers import Request
+    from werkzeug.wsgi import get_current_url
+
+    hs = hosts()
+    st = {"path": "/", "root": "", "scheme": "http", "hostU": "localhost", "hostA": "localhost", "port": "", "pairs": []}
+    mode = "args"
+    lines = []
+    b = None
+    fatal = ""
+    try:
+        for step in h["steps"]:
+            op = step[0]
+            try:
+                if op == "new":
+                    c = step[1]
+                    if c is None:
+                        b = EnvironBuilder()
+                    else:
+                        host = c["hostA"] if c["use_ascii_host"] else c["hostU"]
+                        b = EnvironBuilder(path=c["path"], base_url=f"{c['scheme']}://{host}{':' + c['port'] if c['port'] else ''}{c['root']}/",
+                                           query_string=MultiDict([tuple(p) for p in c["pairs"]]))
+                        st = {"path": c["path"], "root": c["root"], "scheme": c["scheme"], "hostU": c["hostU"], "hostA": c["hostA"],
+                              "port": c["port"], "pairs": [list(p) for p in c["pairs"]]}
+                elif op == "path":
+                    b.path = step[1]
+                    st["path"] = step[1]
+                elif op == "base_url":
+                    _, scheme, hi, asc, port, root = step
+                    hu, ha = hs[hi]
+                    b.base_url = f"{scheme}://{ha if asc else hu}{':' + port if port else ''}{root}/"
+                    st.update(scheme=scheme, hostU=hu, hostA=ha, port=port, root=root)
+                elif op == "script_root":
+                    b.script_root = step[1]
+                    st["root"] = step[1]
+                elif op == "host":
+                    _, hi, asc, port = step
+                    hu, ha = hs[hi]
+                    b.host = f"{ha if asc else hu}{':' + port if port else ''}"
+                    st.update(hostU=hu, hostA=ha, port=port)
+                elif op == "url_scheme":
+                    b.url_scheme = step[1]
+                    st["scheme"] = step[1]
+                elif op == "query_string":
+                    b.query_string = _raw_query(step[1]) if step[2] else urlencode([tuple(p) for p in step[1]])
+                    st["pairs"] = [list(p) for p in step[1]]
+                    mode = "str"
+                elif op == "args":
+                    b.args = MultiDict([tuple(p) for p in step[1]])
+                    st["pairs"] = [list(p) for p in step[1]]
+                    mode = "args"
+                elif op == "args_add":
+                    if mode == "args":
+                        b.args.add(step[1], step[2])
+                        st["pairs"] = st["pairs"] + [[step[1], step[2]]]
+                elif op == "emit":
+                    out = {"rpath": "", "rhost": "", "rurl": "", "rroot": "", "wurl": "", "rbase": ""}
+                    rargs, err = [], ""
+                    try:
+                        env = b.get_environ()
+                        req = Request(env)
+                        out = {"rpath": req.path, "rhost": req.host, "rurl": req.url, "rroot": req.root_path,
+                               "wurl": get_current_url(env), "rbase": req.base_url}
+                        rargs = list(req.args.items(multi=True))
+                    except Exception as ex:
+                        err = type(ex).__name__
+                    given = MultiDict([tuple(p) for p in st["pairs"]])
+                    ln = {"op": "env", "path": cps(st["path"]), "pairs": [[cps(k), cps(v)] for k, v in given.items(multi=True)],
+                          "scheme": cps(st["scheme"]), "hostU": cps(st["hostU"]), "hostA": cps(st["hostA"]), "port": cps(st["port"]),
+                          "root": cps(st["root"]), "err": err, "rargs": [[cps(k), cps(v)] for k, v in rargs]}
+                    for k, v in out.items():
+                        ln[k] = cps(v)
+                    lines.append(ln)
+            except Exception as ex:  # an assignment itself raised: recorded on the next emitted line
+                fatal = fatal or f"{op}:{type(ex).__name__}"
+    finally:
+        if b is not None:
+            b.close()
+    if fatal:
+        for ln in lines:
+            ln["err"] = ln["err"] or fatal.replace(":", "_")
+    return lines
